@@ -37,7 +37,7 @@ PROPS = {
                 level_note='query traversal (keys, *, [*], filters, variables, key-case converters) and list flattening in operators.rs are NOT under contract: a change confined to query_retrieval_with_converter is not detected by this check',
                 not_under_contract=['query_retrieval_with_converter', 'operators.rs list-valued Eq/In', 'eval_guard_block_clause', 'eval_type_block_clause', 'key capture (add_variable_capture_key)', 'parser'],
                 explanation=''),
-    'C08': dict(level='proof', vgroups=['eval', 'eval_blocks', 'eval_disp', 'index', 'index2', 'tracker', 'tables', 'validate', 'validate_data', 'structured', 'exit', 'status', 'merge', 'report'],
+    'C08': dict(level='proof', vgroups=['eval', 'eval_blocks', 'eval_disp', 'index', 'index2', 'tracker', 'tables', 'validate', 'validate_data', 'structured', 'failed', 'exit', 'status', 'merge', 'report'],
                 kunits=['U-substr', 'U-call', 'U-cnf', 'U-count', 'U-conv', 'U-join', 'U-expect', 'U-xr'],
                 kunits_quick=['U-substr', 'U-call'],
                 assumptions=EVAL_ASSUME + KANI_ASSUME,
@@ -59,7 +59,7 @@ PROPS = {
                 level_text='order/repetition invariance is proved as lemmas over the aggregation spec functions (permutation = equal multisets, repetition = insertion of a copy; unbounded), composed with the conformance of the real aggregators to those spec functions (Verus unbounded for rule list / rule / when; Kani bounded for the CNF combinator)',
                 level_note='history dimension: the memo tables are under contract (RootScope::rule_status: first non-SKIP definition, memoised once, other entries untouched; Root/BlockScope::resolve_variable: literal wins, a memoised result is returned as stored, the first result is exactly what is memoised), assuming that the status of one rule definition does not depend on the memo state; key capture (add_variable_capture_key mutates a memoised entry by design) and that assumption itself are NOT decided; CNF conformance is bounded (3x3)',
                 not_under_contract=['add_variable_capture_key (key capture mutates memo entries)', 'state-independence of eval_rule / query_retrieval results (assumed: def_sem)', 'ValueScope delegation'], explanation=''),
-    'C09': dict(level='proof', vgroups=['report', 'status', 'eval'], kunits=[], assumptions=EVAL_ASSUME + [
+    'C09': dict(level='proof', vgroups=['report', 'failed', 'status', 'eval'], kunits=[], assumptions=EVAL_ASSUME + [
                     'ASSUMED BTreeSet<String>/Vec::extend/HashMap::extend API models', 'assumed contract of report_all_failed_clauses_for_rules (one Rule entry per FAIL rule child)'],
                 level_text='Verus proves that compliant / not_applicable are exactly the PASS / SKIP rule children of the FileCheck node, status and name are copied, not_compliant has one Rule entry per FAIL child (callee contract), the partition lemma for distinct rule names, file status vs partitions, and that combine is the union with Status::and',
                 level_note='attribution of individual checks inside report_all_failed_clauses_for_rules is only an assumed contract here',
@@ -79,4 +79,4 @@ PROPS = {
 }
 
 HOOK_COMMITS = ['cb466a2', 'c4d9d89']
-FIX_COMMITS = ['d9c6e7f', '4e65a31', '80b223b', '52f4f87', 'ecd0109']
+FIX_COMMITS = ['d9c6e7f', '4e65a31', '80b223b', '52f4f87', 'ecd0109', '3be0b7e']
